@@ -50,9 +50,19 @@ theorem isOutput_of_isInput {t : Target} (h : t.isInput = true) : t.isOutput = f
     (Ctx.new c doc t).scalarTypes = DeclCfg.scalarTypes c doc := rfl
 @[simp] theorem Ctx.new_schema (c : Cfg) (doc : TsDoc) (t : Target) : (Ctx.new c doc t).schema = ⟨doc⟩ := rfl
 
+/-- in `E`, every configured scalar text is read as in the empty declaration environment -/
+def ScalarsGlobal (c : Cfg) (doc : TsDoc) (E : Env) : Prop :=
+  ∀ p ∈ scalarTypes c doc, ∀ t ∈ Target.all, ∀ v,
+    Mem E v (c.parseOf (p.2.getType t)) ↔ Mem Env.empty v (c.parseOf (p.2.getType t))
+
+/-- an environment without helper-type hooks reads the (abs-free) scalar texts globally -/
+theorem scalarsGlobal_of_nohook {c : Cfg} {doc : TsDoc} (ok : DocOK c doc) {E : Env}
+    (hh : ∀ d f as, E.appHook d f as = none) : ScalarsGlobal c doc E :=
+  fun p hp t ht _ => mem_indep hh (fun _ _ _ => rfl) (ok.parses p hp t ht).1
+
 section closed
 variable {c : Cfg} {doc : TsDoc} {F : File} (hF : schemaFile c doc = .ok F) (ok : DocOK c doc)
-variable {E : Env} {P : Scope} (H : Hosted E.decls P F) (hh : ∀ d f as, E.appHook d f as = none) (t : Target)
+variable {E : Env} {P : Scope} (H : Hosted E.decls P F) (hsc : ScalarsGlobal c doc E) (t : Target)
 
 /-- the absolute reference to the alias of schema type `n` in the namespace of `t` -/
 abbrev absRef (c : Cfg) (doc : TsDoc) (P : Scope) (t : Target) (n : Name) : Ty :=
@@ -68,11 +78,11 @@ theorem fits_body {td : TypeDef} (hm : td ∈ typeDefsOf doc) (hfit : kindFits t
   · split at ho
     · exact ⟨_, rfl⟩
     · cases ho
-  · exact ⟨_, by simp [isInput_of_isOutput hfit]⟩
-  · exact ⟨_, by simp [isInput_of_isOutput hfit]⟩
-  · exact ⟨_, by simp [isInput_of_isOutput hfit]⟩
+  · exact ⟨objectBody (Ctx.new c doc t) td, by simp [isInput_of_isOutput hfit]⟩
+  · exact ⟨interfaceBody (Ctx.new c doc t) td, by simp [isInput_of_isOutput hfit]⟩
+  · exact ⟨unionBody (Ctx.new c doc t) td, by simp [isInput_of_isOutput hfit]⟩
   · exact ⟨_, rfl⟩
-  · exact ⟨_, by simp [isOutput_of_isInput hfit]⟩
+  · exact ⟨inputBody (Ctx.new c doc t) td, by simp [isOutput_of_isInput hfit]⟩
 
 include hF ok H in
 theorem mem_absRef {td : TypeDef} {ty : Ty} (hm : td ∈ typeDefsOf doc)
@@ -98,7 +108,7 @@ theorem enum_case {td : TypeDef} (hm : td ∈ typeDefsOf doc) (hk : td.kind = .e
   have hb : body (Ctx.new c doc t) td = .ok (some (enumBody td)) := by simp [body, hk]
   rw [mem_absRef hF ok H t hm hb, globalise_enumBody, mem_enumBody_iff, Ref_enum c ⟨doc⟩ t (typeDef?_of_mem ok hm) hk]
 
-include hF ok H hh in
+include hF ok H hsc in
 theorem scalar_case {td : TypeDef} (hm : td ∈ typeDefsOf doc) (hk : td.kind = .scalar) (v : J) :
     Mem E v (absRef c doc P t td.name) ↔ Ref c ⟨doc⟩ t td.name v := by
   obtain ⟨ty, hb⟩ := fits_body hF t hm (by simp [hk, kindFits])
@@ -113,7 +123,7 @@ theorem scalar_case {td : TypeDef} (hm : td ∈ typeDefsOf doc) (hk : td.kind = 
     obtain ⟨hna, hfree⟩ := ok.parses (n', sc) hp t (Target.mem_all t)
     rw [mem_absRef hF ok H t hm hb,
       globalise_id _ _ _ (fun i hi => hosted_bag_unbound hF ok H t (hfree i hi)),
-      mem_indep hh (fun _ _ _ => rfl) hna (e2 := Env.empty),
+      hsc (n', sc) hp t (Target.mem_all t) v,
       Ref_scalar c ⟨doc⟩ t (typeDef?_of_mem ok hm) hk]
     constructor
     · intro h; exact ⟨sc, by simp [scalarType?, hfind'], h⟩
@@ -211,19 +221,22 @@ theorem members_case {td : TypeDef} (hm : td ∈ typeDefsOf doc) (ht : t.isOutpu
   · rintro ⟨n, hn, h⟩; exact ⟨n, hn, (key n hn).1 h⟩
   · rintro ⟨n, hn, h⟩; exact ⟨n, hn, (key n hn).2 h⟩
 
+theorem kind_of_beq {a b : TypeKind} (h : (a == b) = true) : a = b := by
+  cases a <;> cases b <;> first | rfl | exact absurd h (by decide)
+
 theorem objectImplementers_objects (doc : TsDoc) (iface : Name) :
     ∀ n ∈ (Schema.mk doc).objectImplementers iface, ∃ td' ∈ typeDefsOf doc, td'.name = n ∧ td'.kind = .object := by
   intro n hn
-  simp only [Schema.objectImplementers, List.mem_map, List.mem_filter, Bool.and_eq_true, beq_iff_eq] at hn
+  simp only [Schema.objectImplementers, List.mem_map, List.mem_filter, Bool.and_eq_true] at hn
   obtain ⟨td', ⟨hm', hk', _⟩, rfl⟩ := hn
-  exact ⟨td', by rw [← typeDefs_eq]; exact hm', rfl, hk'⟩
+  exact ⟨td', by rw [← typeDefs_eq]; exact hm', rfl, kind_of_beq hk'⟩
 
-include hF ok H hh in
+include hF ok H hsc in
 /-- one step of the induction on values: all kinds -/
 theorem agree_step (v : J) (IH : ∀ y, jrank y < jrank v → Agree c doc E P t y) : Agree c doc E P t v := by
   intro td hm hfit
   cases hk : td.kind with
-  | scalar => exact scalar_case hF ok H hh t hm hk v
+  | scalar => exact scalar_case hF ok H hsc t hm hk v
   | «enum» => exact enum_case hF ok H t hm hk v
   | object =>
     have ht : t.isOutput = true := by simpa [kindFits, hk] using hfit
@@ -246,7 +259,7 @@ theorem agree_step (v : J) (IH : ∀ y, jrank y < jrank v → Agree c doc E P t 
       obtain ⟨m, hmm, rfl⟩ := List.mem_map.1 hn
       exact ok.members td hm hk m hmm
 
-include hF ok H hh in
+include hF ok H hsc in
 /-- THE CLOSED FORM (hosted): for every value, every definition whose kind fits the target -/
 theorem agree_all : ∀ (n : Nat) (v : J), jrank v < n → Agree c doc E P t v := by
   intro n
@@ -254,12 +267,79 @@ theorem agree_all : ∀ (n : Nat) (v : J), jrank v < n → Agree c doc E P t v :
   | zero => intro v h; omega
   | succ n ih =>
     intro v hv
-    exact agree_step hF ok H hh t v (fun y hy => ih y (by omega))
+    exact agree_step hF ok H hsc t v (fun y hy => ih y (by omega))
 
-include hF ok H hh in
-theorem hosted_alias_exact {td : TypeDef} (hm : td ∈ typeDefsOf doc) (hfit : kindFits td.kind t = true) (v : J) :
+include hF ok H hsc in
+/-- the closed form for any environment that reads the scalar texts globally (e.g. with the `Omit` hook installed) -/
+theorem hosted_alias_exact' {td : TypeDef} (hm : td ∈ typeDefsOf doc) (hfit : kindFits td.kind t = true) (v : J) :
     Mem E v (absRef c doc P t td.name) ↔ Ref c ⟨doc⟩ t td.name v :=
-  agree_all hF ok H hh t (jrank v + 1) v (Nat.lt_succ_self _) td hm hfit
+  agree_all hF ok H hsc t (jrank v + 1) v (Nat.lt_succ_self _) td hm hfit
+
+include hF ok H in
+theorem hosted_alias_exact (hh : ∀ d f as, E.appHook d f as = none) {td : TypeDef} (hm : td ∈ typeDefsOf doc)
+    (hfit : kindFits td.kind t = true) (v : J) :
+    Mem E v (absRef c doc P t td.name) ↔ Ref c ⟨doc⟩ t td.name v :=
+  hosted_alias_exact' hF ok H (scalarsGlobal_of_nohook ok hh) t hm hfit v
+
+/-! ### the qualified route `ns.T` -/
+
+include hF ok H in
+/-- from the top of the hosted file, `<namespace of t>.T` is the alias of `T` in that namespace (`T` = SCHEMA name) -/
+theorem hosted_qualified_inner {td : TypeDef} {ty : Ty} (hm : td ∈ typeDefsOf doc)
+    (hb : body (Ctx.new c doc t) td = .ok (some ty)) :
+    E.decls.resolveQ P [t.name, td.name] = some (aliasDecl c doc P t td ty) := by
+  have hns : E.decls.namespaces.contains (P ++ [t.name]) = true := hosted_ns_mem hF H t
+  have h1 : E.decls.resolveNsAux t.name (P.length + 1) P = some (P ++ [t.name]) := by
+    simp only [Decls.resolveNsAux, hns, if_true]
+  have e1 : [td.name].dropLast = [] := rfl
+  have e2 : [td.name].getLast? = some td.name := rfl
+  simp only [Decls.resolveQ, h1, e1, e2, List.append_nil, List.length_singleton, beq_self_eq_true,
+    Bool.or_true, if_true]
+  exact hosted_findExported_hit hF ok H t hm hb
+
+include hF ok H in
+/-- from a scope where the name `A` denotes the hosting path `P` (`import type * as A`), `A.<namespace of t>.T` is the
+    alias of `T` in that namespace -/
+theorem hosted_qualified_outer {sc : Scope} {A : String}
+    (hA : E.decls.resolveNsAux A (sc.length + 1) sc = some P)
+    {td : TypeDef} {ty : Ty} (hm : td ∈ typeDefsOf doc) (hb : body (Ctx.new c doc t) td = .ok (some ty)) :
+    E.decls.resolveQ sc [A, t.name, td.name] = some (aliasDecl c doc P t td ty) := by
+  have hns : E.decls.namespaces.contains (P ++ [t.name]) = true := hosted_ns_mem hF H t
+  have e1 : [t.name, td.name].dropLast = [t.name] := rfl
+  have e2 : [t.name, td.name].getLast? = some td.name := rfl
+  simp only [Decls.resolveQ, hA, e1, e2, hns, Bool.true_or, if_true]
+  exact hosted_findExported_hit hF ok H t hm hb
+
+/-! ### the top-level representatives -/
+
+theorem repTarget_fits (td : TypeDef) : kindFits td.kind (repTarget td) = true := by
+  unfold repTarget
+  cases hk : td.kind <;> rfl
+
+include hF ok H in
+/-- the top-level alias of `td` (under its local name) admits exactly `Ref` of `td` for the target its representative
+    points into: `__ResolverInput` for input objects, `__OperationOutput` for everything else -/
+theorem hosted_rep_exact (hh : ∀ d f as, E.appHook d f as = none) {td : TypeDef} (hm : td ∈ typeDefsOf doc) (v : J) :
+    Mem E v (Ty.abs P (lname c doc td.name)) ↔ Ref c ⟨doc⟩ (repTarget td) td.name v := by
+  obtain ⟨ty, hb⟩ := fits_body hF (repTarget td) hm (repTarget_fits td)
+  have hq := hosted_qualified_inner hF ok H (repTarget td) hm hb
+  have hbody : E.decls.body? (P ++ [lname c doc td.name]) = some ([], absRef c doc P (repTarget td) td.name) := by
+    simp only [Decls.body?, List.getLast?_concat, List.dropLast_concat, hosted_findLocal_top hF ok H hm, repDecl,
+      globalise, List.contains_nil, Bool.false_eq_true, if_false, hq]
+    rfl
+  rw [Ty.abs, mem_alias_iff hbody]
+  exact hosted_alias_exact hF ok H (repTarget td) hh hm (repTarget_fits td) v
+
+include hF ok H in
+/-- from a scope where `A` denotes the hosting path, `A.T` is the top-level representative of `T` -/
+theorem hosted_qualified_top {sc : Scope} {A : String}
+    (hA : E.decls.resolveNsAux A (sc.length + 1) sc = some P) {td : TypeDef} (hm : td ∈ typeDefsOf doc) :
+    E.decls.resolveQ sc [A, td.name] = some (repDecl c doc P td) := by
+  have e1 : [td.name].dropLast = [] := rfl
+  have e2 : [td.name].getLast? = some td.name := rfl
+  simp only [Decls.resolveQ, hA, e1, e2, List.append_nil, List.length_singleton, beq_self_eq_true, Bool.or_true,
+    if_true]
+  exact hosted_findExported_top hF ok H hm
 
 end closed
 
